@@ -2,6 +2,7 @@ import Xrl.Lemmas.Tactics
 import Xrl.Spec.Scatter
 import Xrl.Gen.F_scattering
 import Xrl.Gen.F_polarized
+import Xrl.Lemmas.KNSeries
 import Mathlib.Analysis.SpecialFunctions.Log.Deriv
 import Mathlib.Analysis.SpecialFunctions.Trigonometric.Deriv
 import Mathlib.Analysis.SpecialFunctions.Trigonometric.Bounds
@@ -20,7 +21,10 @@ import Mathlib.Tactic.Positivity
 * real-number readings of the textbook values (`*_real`), the Compton denominator `den`;
 * the analysis: positivity, `KN ≤ Thomson`, the low-energy limit, the azimuthal averages, the Klein–Nishina
   solid-angle integral through an explicit antiderivative (from the probe `notes/probes/lean/KN.lean`),
-  monotonicity of the Compton energy.
+  monotonicity of the Compton energy;
+* the repaired `CS_KN` (series of degree 11 for `E/mc² < 0.02`, closed form otherwise): the closed-form branch
+  *is* the integral, the series branch is within `1e-16` of it (`csknV_integral_close`, from
+  `KNS.ser_close` of Lemmas/KNSeries.lean); `≤` Thomson total, `→` Thomson total.
 -/
 namespace Xrl
 namespace KN
@@ -104,13 +108,29 @@ theorem comptonV_real (E θ : ℝ) : Spec.comptonV E θ = E * (den E θ)⁻¹ :=
 theorem momentV_real (E θ : ℝ) : Spec.momentV E θ = E / Hdr.KEV2ANGST * sin (θ / 2) := by
   simp only [Spec.momentV, XNum.sin, l2]
 
+theorem csknBracket_real (a : ℝ) : Spec.csknBracket a = KNS.brk a := by
+  simp only [Spec.csknBracket, KNS.brk, XNum.log, l1, l2, l3]
+
+theorem csknSeries_real (a : ℝ) : Spec.csknSeries a = KNS.ser a := by
+  rw [← KNS.ser_horner]
+  simp only [Spec.csknSeries]
+  norm_num
+
+theorem csknSwitch_real : (Spec.csknSwitch : ℝ) = 1 / 50 := by unfold Spec.csknSwitch; norm_num
+
+/-- series below `a = 0.02`, closed form from there on -/
 theorem csknV_real (E : ℝ) :
     Spec.csknV E = 2 * Spec.PI_lit * Hdr.RE2 *
-      ((1 + E / Hdr.MEC2) / (E / Hdr.MEC2 * (E / Hdr.MEC2) * (E / Hdr.MEC2)) *
-          (2 * (E / Hdr.MEC2) * (1 + E / Hdr.MEC2) / (1 + 2 * (E / Hdr.MEC2)) - log (1 + 2 * (E / Hdr.MEC2)))
-        + log (1 + 2 * (E / Hdr.MEC2)) / (2 * (E / Hdr.MEC2))
-        - (1 + 3 * (E / Hdr.MEC2)) / ((1 + 2 * (E / Hdr.MEC2)) * (1 + 2 * (E / Hdr.MEC2)))) := by
-  simp only [Spec.csknV, Spec.csknBracket, XNum.log, l1, l2, l3]
+      (if E / Hdr.MEC2 < 1 / 50 then KNS.ser (E / Hdr.MEC2) else KNS.brk (E / Hdr.MEC2)) := by
+  simp only [Spec.csknV, csknBracket_real, csknSeries_real, csknSwitch_real, l2]
+
+theorem csknV_low {E : ℝ} (h : E / Hdr.MEC2 < 1 / 50) :
+    Spec.csknV E = 2 * Spec.PI_lit * Hdr.RE2 * KNS.ser (E / Hdr.MEC2) := by
+  rw [csknV_real, if_pos h]
+
+theorem csknV_high {E : ℝ} (h : 1 / 50 ≤ E / Hdr.MEC2) :
+    Spec.csknV E = 2 * Spec.PI_lit * Hdr.RE2 * KNS.brk (E / Hdr.MEC2) := by
+  rw [csknV_real, if_neg (not_lt.mpr h)]
 
 /-! ## what the generated functions return -/
 
@@ -186,16 +206,22 @@ theorem value_MomentTransf (hE : 0 < E) :
 theorem value_CS_KN (hE : 0 < E) : Gen.CS_KN T E error = Except.ok (Spec.csknV E, error) := by
   unfold Gen.CS_KN
   simp only [notle hE, if_false]
-  simp only [ddiv, dlog, XNum.log, deq_real, Spec.csknV, Spec.csknBracket, Spec.PI_lit, Hdr.RE2, Hdr.MEC2]
-  norm_num
-  have ha : 0 < E / (31937433 / 62500) := div_pos hE (by norm_num)
-  set a := E / (31937433 / 62500) with hadef
-  have hb : ¬ 1 + 2 * a ≤ 0 := by linarith
-  have hb' : 1 + 2 * a ≠ 0 := by linarith
-  have hE0 : E ≠ 0 := hE.ne'
-  simp only [hb, hb', hE0, if_false, bind_ok]
-  congr 2
-  ring
+  by_cases hlow : E / (510.998928 : ℝ) < (0.02 : ℝ)
+  · -- series branch (scattering.c:237-249): no division by a variable, no logarithm
+    simp only [hlow, if_true, pure_eq_ok, Spec.csknV, Spec.csknSwitch, Spec.csknSeries, Spec.PI_lit, Hdr.RE2,
+      Hdr.MEC2]
+  · -- closed form (scattering.c:251-257)
+    simp only [hlow, if_false, Spec.csknV, Spec.csknSwitch, Hdr.MEC2]
+    simp only [ddiv, dlog, XNum.log, deq_real, Spec.csknBracket, Spec.PI_lit, Hdr.RE2]
+    norm_num
+    have ha : 0 < E / (31937433 / 62500) := div_pos hE (by norm_num)
+    set a := E / (31937433 / 62500) with hadef
+    have hb : ¬ 1 + 2 * a ≤ 0 := by linarith
+    have hb' : 1 + 2 * a ≠ 0 := by linarith
+    have hE0 : E ≠ 0 := hE.ne'
+    simp only [hb, hb', hE0, if_false, bind_ok]
+    congr 2
+    ring
 
 end gen
 
@@ -450,38 +476,174 @@ theorem knV_eq_dcsKN (hE : 0 < E) : Spec.knV E θ = dcsKN Hdr.RE2 (E / Hdr.MEC2)
   field_simp
   ring
 
-theorem csknV_eq_csKN : π / Spec.PI_lit * Spec.csknV E = csKN Hdr.RE2 (E / Hdr.MEC2) := by
-  rw [csknV_real]
-  unfold csKN
-  have := PI_lit_pos.ne'
+/-- the total cross section with the real `π` is `2π r ·` the bracket -/
+theorem csKN_eq_brk (r a : ℝ) : csKN r a = 2 * π * r * KNS.brk a := by
+  unfold csKN KNS.brk
   have h5 : (0.5 : ℝ) = 1 / 2 := by norm_num
   rw [h5]
-  field_simp
+  congr 2
+  ring
 
-theorem csknV_is_integral (hE : 0 < E) :
-    ∫ θ in (0:ℝ)..π, Spec.knV E θ * (2 * π * sin θ) = π / Spec.PI_lit * Spec.csknV E := by
+/-- the solid-angle integral of the differential cross section, for every `E > 0` -/
+theorem knV_integral (hE : 0 < E) :
+    ∫ θ in (0:ℝ)..π, Spec.knV E θ * (2 * π * sin θ) = 2 * π * Hdr.RE2 * KNS.brk (E / Hdr.MEC2) := by
   have : (fun θ => Spec.knV E θ * (2 * π * sin θ)) =
       fun θ => dcsKN Hdr.RE2 (E / Hdr.MEC2) θ * (2 * π * sin θ) := by
     funext θ; rw [knV_eq_dcsKN E θ hE]
-  rw [this, csKN_is_integral _ _ (div_pos hE MEC2_pos), csknV_eq_csKN]
+  rw [this, csKN_is_integral _ _ (div_pos hE MEC2_pos), csKN_eq_brk]
+
+theorem knV_integrable (hE : 0 < E) :
+    IntervalIntegrable (fun θ => Spec.knV E θ * (2 * π * sin θ)) MeasureTheory.volume 0 π := by
+  have hfe : (fun θ => Spec.knV E θ * (2 * π * sin θ)) =
+      fun θ => dcsKN Hdr.RE2 (E / Hdr.MEC2) θ * (2 * π * sin θ) := by
+    funext θ; rw [knV_eq_dcsKN E θ hE]
+  rw [hfe]; exact (continuous_integrand _ _ (div_pos hE MEC2_pos)).intervalIntegrable _ _
+
+theorem knV_integral_pos (hE : 0 < E) : 0 < ∫ θ in (0:ℝ)..π, Spec.knV E θ * (2 * π * sin θ) := by
+  apply intervalIntegral.intervalIntegral_pos_of_pos_on
+  · exact knV_integrable E hE
+  · intro x hx
+    have := knV_pos E x hE
+    have := sin_pos_of_pos_of_lt_pi hx.1 hx.2
+    have := pi_pos
+    positivity
+  · exact pi_pos
+
+/-- the closed-form bracket is positive for every `a = E/mc² > 0` (it is the integral of a positive function) -/
+theorem brk_pos_of_pos (hE : 0 < E) : 0 < KNS.brk (E / Hdr.MEC2) := by
+  have h := knV_integral_pos E hE
+  rw [knV_integral E hE] at h
+  have : 0 < 2 * π * Hdr.RE2 := by have := pi_pos; have := RE2_pos; positivity
+  exact (mul_pos_iff_of_pos_left this).mp h
+
+/-- closed-form branch (`E/mc² ≥ 0.02`): the returned value is the integral, up to the header's 16-digit `PI` -/
+theorem csknV_is_integral_high (hE : 0 < E) (h : 1 / 50 ≤ E / Hdr.MEC2) :
+    ∫ θ in (0:ℝ)..π, Spec.knV E θ * (2 * π * sin θ) = π / Spec.PI_lit * Spec.csknV E := by
+  rw [knV_integral E hE, csknV_high h]
+  have := PI_lit_pos.ne'
+  field_simp
+
+/-- **both branches**: `π/PI_lit ·` the returned value is within `1e-16` (relative) of the integral -/
+theorem csknV_integral_close (hE : 0 < E) :
+    |π / Spec.PI_lit * Spec.csknV E - ∫ θ in (0:ℝ)..π, Spec.knV E θ * (2 * π * sin θ)|
+      ≤ 1e-16 * ∫ θ in (0:ℝ)..π, Spec.knV E θ * (2 * π * sin θ) := by
+  by_cases h : E / Hdr.MEC2 < 1 / 50
+  · have ha := div_pos hE MEC2_pos
+    rw [knV_integral E hE, csknV_low h]
+    have hp := PI_lit_pos.ne'
+    have hc := KNS.ser_close ha h
+    have hk : 0 < 2 * π * Hdr.RE2 := by have := pi_pos; have := RE2_pos; positivity
+    have e : π / Spec.PI_lit * (2 * Spec.PI_lit * Hdr.RE2 * KNS.ser (E / Hdr.MEC2))
+        - 2 * π * Hdr.RE2 * KNS.brk (E / Hdr.MEC2)
+        = 2 * π * Hdr.RE2 * (KNS.ser (E / Hdr.MEC2) - KNS.brk (E / Hdr.MEC2)) := by
+      field_simp
+    rw [e, abs_mul, abs_of_pos hk]
+    calc 2 * π * Hdr.RE2 * |KNS.ser (E / Hdr.MEC2) - KNS.brk (E / Hdr.MEC2)|
+        ≤ 2 * π * Hdr.RE2 * (1e-16 * KNS.brk (E / Hdr.MEC2)) := mul_le_mul_of_nonneg_left hc hk.le
+      _ = 1e-16 * (2 * π * Hdr.RE2 * KNS.brk (E / Hdr.MEC2)) := by ring
+  · rw [← csknV_is_integral_high E hE (not_lt.mp h), sub_self, abs_zero]
+    exact mul_nonneg (by norm_num) (knV_integral_pos E hE).le
 
 theorem csknV_pos (hE : 0 < E) : 0 < Spec.csknV E := by
+  have hk : (0:ℝ) < 2 * Spec.PI_lit * Hdr.RE2 := by have := PI_lit_pos; have := RE2_pos; positivity
+  by_cases h : E / Hdr.MEC2 < 1 / 50
+  · rw [csknV_low h]; exact mul_pos hk (KNS.ser_pos h.le)
+  · rw [csknV_high (not_lt.mp h)]; exact mul_pos hk (brk_pos_of_pos E hE)
+
+/-! ## the Thomson total: `∫ r²/2 (1 + cos²θ) · 2π sin θ dθ = 8π r²/3` -/
+
+theorem thomsV_integral : ∫ θ in (0:ℝ)..π, Spec.thomsV θ * (2 * π * sin θ) = 8 * π / 3 * Hdr.RE2 := by
+  have hd : ∀ θ ∈ Set.uIcc (0:ℝ) π,
+      HasDerivAt (fun θ => π * Hdr.RE2 * (-cos θ - cos θ ^ 3 / 3)) (Spec.thomsV θ * (2 * π * sin θ)) θ := by
+    intro θ _
+    have h1 : HasDerivAt (fun θ => cos θ) (-sin θ) θ := hasDerivAt_cos θ
+    have h3 : HasDerivAt (fun θ => cos θ ^ 3) (3 * cos θ ^ 2 * -sin θ) θ := by
+      have := h1.fun_pow 3
+      simpa using this
+    have H := ((h1.neg).sub (h3.div_const 3)).const_mul (π * Hdr.RE2)
+    refine (H.congr_of_eventuallyEq (Filter.Eventually.of_forall (fun v => ?_))).congr_deriv ?_
+    · simp
+    · rw [thomsV_real]; ring
+  have hc : Continuous fun θ => Spec.thomsV θ * (2 * π * sin θ) := by
+    have : (fun θ => Spec.thomsV θ * (2 * π * sin θ)) =
+        fun θ => Hdr.RE2 / 2 * (1 + cos θ ^ 2) * (2 * π * sin θ) := by funext θ; rw [thomsV_real]
+    rw [this]; fun_prop
+  rw [intervalIntegral.integral_eq_sub_of_hasDerivAt hd (hc.intervalIntegrable _ _)]
+  simp only [cos_pi, cos_zero]
+  ring
+
+theorem knV_integral_le_thomson (hE : 0 < E) :
+    ∫ θ in (0:ℝ)..π, Spec.knV E θ * (2 * π * sin θ) ≤ ∫ θ in (0:ℝ)..π, Spec.thomsV θ * (2 * π * sin θ) := by
+  have hc : Continuous fun θ => Spec.thomsV θ * (2 * π * sin θ) := by
+    have : (fun θ => Spec.thomsV θ * (2 * π * sin θ)) =
+        fun θ => Hdr.RE2 / 2 * (1 + cos θ ^ 2) * (2 * π * sin θ) := by funext θ; rw [thomsV_real]
+    rw [this]; fun_prop
+  apply intervalIntegral.integral_mono_on pi_pos.le (knV_integrable E hE) (hc.intervalIntegrable _ _)
+  intro θ hθ
+  have hs : 0 ≤ sin θ := sin_nonneg_of_nonneg_of_le_pi hθ.1 hθ.2
+  exact mul_le_mul_of_nonneg_right (knV_le_thomsV E θ hE) (by have := pi_pos; positivity)
+
+/-- the returned value never exceeds the Thomson total (written with the code's own `PI`): the closed-form branch
+because the integrand is pointwise below Thomson's, the series branch because `ser a ≤ 4/3` -/
+theorem csknV_le_thomson (hE : 0 < E) : Spec.csknV E ≤ 2 * Spec.PI_lit * Hdr.RE2 * (4 / 3) := by
+  have hk : (0:ℝ) < 2 * Spec.PI_lit * Hdr.RE2 := by have := PI_lit_pos; have := RE2_pos; positivity
   have ha := div_pos hE MEC2_pos
-  have hint : 0 < ∫ θ in (0:ℝ)..π, Spec.knV E θ * (2 * π * sin θ) := by
-    have hfe : (fun θ => Spec.knV E θ * (2 * π * sin θ)) =
-        fun θ => dcsKN Hdr.RE2 (E / Hdr.MEC2) θ * (2 * π * sin θ) := by
-      funext θ; rw [knV_eq_dcsKN E θ hE]
-    apply intervalIntegral.intervalIntegral_pos_of_pos_on
-    · rw [hfe]; exact (continuous_integrand _ _ ha).intervalIntegrable _ _
-    · intro x hx
-      have := knV_pos E x hE
-      have := sin_pos_of_pos_of_lt_pi hx.1 hx.2
-      have := pi_pos
-      positivity
-    · exact pi_pos
-  rw [csknV_is_integral E hE] at hint
+  by_cases h : E / Hdr.MEC2 < 1 / 50
+  · rw [csknV_low h]; exact mul_le_mul_of_nonneg_left (KNS.ser_le ha.le h.le) hk.le
+  · have h1 := knV_integral_le_thomson E hE
+    rw [knV_integral E hE, thomsV_integral] at h1
+    rw [csknV_high (not_lt.mp h)]
+    have hb : KNS.brk (E / Hdr.MEC2) ≤ 4 / 3 := by
+      have hq : 0 < 2 * π * Hdr.RE2 := by have := pi_pos; have := RE2_pos; positivity
+      have : 2 * π * Hdr.RE2 * KNS.brk (E / Hdr.MEC2) ≤ 2 * π * Hdr.RE2 * (4 / 3) := by linarith
+      exact le_of_mul_le_mul_left this hq
+    exact mul_le_mul_of_nonneg_left hb hk.le
+
+/-- … equivalently: `π/PI_lit ·` value `≤` the solid-angle integral of the Thomson differential cross section -/
+theorem csknV_le_thomson_integral (hE : 0 < E) :
+    π / Spec.PI_lit * Spec.csknV E ≤ ∫ θ in (0:ℝ)..π, Spec.thomsV θ * (2 * π * sin θ) := by
+  rw [thomsV_integral]
+  have h := csknV_le_thomson E hE
   have hq : 0 < π / Spec.PI_lit := div_pos pi_pos PI_lit_pos
-  exact (mul_pos_iff_of_pos_left hq).mp hint
+  have hp := PI_lit_pos.ne'
+  calc π / Spec.PI_lit * Spec.csknV E ≤ π / Spec.PI_lit * (2 * Spec.PI_lit * Hdr.RE2 * (4 / 3)) :=
+        mul_le_mul_of_nonneg_left h hq.le
+    _ = 8 * π / 3 * Hdr.RE2 := by field_simp; ring
+
+/-- low-energy limit: below `0.02 mc²` the value is the polynomial `ser`, continuous, `ser 0 = 4/3` -/
+theorem csknV_tendsto :
+    Filter.Tendsto (fun E : ℝ => Spec.csknV E) (nhdsWithin 0 (Set.Ioi 0)) (nhds ((2 * Spec.PI_lit * Hdr.RE2 * (4 / 3) : ℝ))) := by
+  have hc : ContinuousAt (fun E : ℝ => 2 * Spec.PI_lit * Hdr.RE2 * KNS.ser (E / Hdr.MEC2)) 0 := by
+    have := KNS.continuous_ser
+    fun_prop
+  have ht := hc.tendsto
+  simp only [zero_div, KNS.ser_zero] at ht
+  refine (ht.mono_left nhdsWithin_le_nhds).congr' ?_
+  have hm : Set.Iio (Hdr.MEC2 / 50 : ℝ) ∈ nhdsWithin (0:ℝ) (Set.Ioi 0) :=
+    mem_nhdsWithin_of_mem_nhds (Iio_mem_nhds (by have := MEC2_pos; positivity))
+  filter_upwards [hm] with E hE
+  have : E / Hdr.MEC2 < 1 / 50 := by
+    rw [div_lt_iff₀ MEC2_pos]; rw [Set.mem_Iio] at hE; linarith
+  rw [csknV_low this]
+
+/-- the integrated differential cross section itself tends to the Thomson total (independently of `CS_KN`) -/
+theorem knV_integral_tendsto :
+    Filter.Tendsto (fun E : ℝ => ∫ θ in (0:ℝ)..π, Spec.knV E θ * (2 * π * sin θ)) (nhdsWithin 0 (Set.Ioi 0))
+      (nhds (8 * π / 3 * Hdr.RE2)) := by
+  have hdiv : Filter.Tendsto (fun E : ℝ => E / Hdr.MEC2) (nhdsWithin 0 (Set.Ioi 0)) (nhdsWithin 0 (Set.Ioi 0)) := by
+    apply tendsto_nhdsWithin_of_tendsto_nhds_of_eventually_within
+    · have hc : Continuous fun E : ℝ => E / Hdr.MEC2 := by fun_prop
+      have h := (hc.continuousAt (x := 0)).tendsto
+      rw [zero_div] at h
+      exact h.mono_left nhdsWithin_le_nhds
+    · filter_upwards [self_mem_nhdsWithin] with E hE
+      exact div_pos hE MEC2_pos
+  have h := (KNS.brk_tendsto.comp hdiv).const_mul (2 * π * Hdr.RE2)
+  have e : 2 * π * Hdr.RE2 * (4 / 3) = 8 * π / 3 * Hdr.RE2 := by ring
+  rw [e] at h
+  refine h.congr' ?_
+  filter_upwards [self_mem_nhdsWithin] with E hE
+  rw [knV_integral E hE]; rfl
 
 /-! ## the literal `PI` against `π` -/
 
